@@ -250,7 +250,9 @@ func run(id string, cfg propCfg, tier string, seed uint64, replay, scratch strin
 			cmd.Env = workerEnv("VERIF_PROP="+id, "VERIF_TIER="+tier, fmt.Sprintf("VERIF_SEED=%d", seed), fmt.Sprintf("VERIF_WORKER=%d", w), fmt.Sprintf("VERIF_NWORKERS=%d", nw), fmt.Sprintf("VERIF_BUDGET_S=%d", budget), "VERIF_OUT="+outPath, "VERIF_KNOWN="+known, "VERIF_MODE=explore")
 			if cfg.Race {
 				rl := filepath.Join(scratch, fmt.Sprintf("race-%d", w))
-				cmd.Env = append(cmd.Env, "GORACE=halt_on_error=0 log_path="+rl, "VERIF_RACELOG="+rl)
+				// one P per worker: the parked actors poll a plain word (no happens-before edge) and
+				// would otherwise burn every core; the detector does not need real parallelism
+				cmd.Env = append(cmd.Env, "GORACE=halt_on_error=0 log_path="+rl, "VERIF_RACELOG="+rl, "GOMAXPROCS=1")
 			}
 			b, err := cmd.CombinedOutput()
 			logs[w] = string(b)
